@@ -46,6 +46,9 @@ class C15(Prop):
                 row.append(('t', ''.join(rng.choice(OUT) for _ in range(rng.randint(0, 5)))))
                 rows.append(row)
             if rng.random() < 0.3: rows.append([('t', rng.choice(['+----------+', 'xxxxxxx', '---------']))])
+            if rows and rng.random() < 0.25:
+                # the same row again, directly below (and sometimes once more): each copy keeps its own texts
+                j = rng.randrange(len(rows)); rows = rows[:j + 1] + [rows[j]] * rng.randint(1, 2) + rows[j + 1:]
             out.append(self.make('quoted', rows))
         # a box around a quoted text
         for _ in range(n // 5):
